@@ -5,6 +5,7 @@ CONSTANTS MaxSeg = 3
           MaxFork = 2
           Schemes = {"hash", "path"}
           Depth = 8
+          Trees <- GenTrees
 CONSTRAINT EmitMBT
 CONSTRAINT Bound
 CHECK_DEADLOCK FALSE
